@@ -82,12 +82,23 @@ impl ShapeIndex {
     }
 }
 
+/// Doubles a length/offset expressed in 16-bit words to get bytes.
+///
+/// Negative values cannot come from a valid file.
+fn words_to_bytes(num_words: i32) -> Result<u64, Error> {
+    u64::try_from(num_words)
+        .map(|n| n * 2)
+        .map_err(|_| Error::InvalidShapeRecordSize)
+}
+
 /// Read the content of a .shx file
 fn read_index_file<T: Read>(mut source: T) -> Result<Vec<ShapeIndex>, Error> {
     let header = header::Header::read_from(&mut source)?;
 
-    let num_shapes = ((header.file_length * 2) - header::HEADER_SIZE) / INDEX_RECORD_SIZE as i32;
-    let mut shapes_index = Vec::<ShapeIndex>::with_capacity(num_shapes as usize);
+    let index_size = words_to_bytes(header.file_length)?.saturating_sub(header::HEADER_SIZE as u64);
+    let num_shapes = index_size / INDEX_RECORD_SIZE as u64;
+    // The count comes from the file, it is not to be trusted to pre-allocate memory
+    let mut shapes_index = Vec::<ShapeIndex>::new();
     for _ in 0..num_shapes {
         let offset = source.read_i32::<BigEndian>()?;
         let record_size = source.read_i32::<BigEndian>()?;
@@ -104,10 +115,17 @@ fn read_one_shape_as<T: Read, S: ReadableShape>(
     mut source: &mut T,
 ) -> Result<(record::RecordHeader, S), Error> {
     let hdr = record::RecordHeader::read_from(&mut source)?;
-    let record_size = hdr.record_size * 2;
+    let record_size = words_to_bytes(hdr.record_size)
+        .ok()
+        .and_then(|size| i32::try_from(size).ok())
+        .ok_or(Error::InvalidShapeRecordSize)?;
     let shape = S::read_from(&mut source, record_size)?;
     Ok((hdr, shape))
 }
+
+/// Value of the 'current position' when it is not known
+/// (after a read that failed midway)
+const UNKNOWN_POS: usize = usize::MAX;
 
 /// Struct that handle iteration over the shapes of a .shp file
 pub struct ShapeIterator<'a, T: Read, S: ReadableShape> {
@@ -135,20 +153,25 @@ impl<T: Read + Seek, S: ReadableShape> Iterator for ShapeIterator<'_, T, S> {
                 // Its 'safer' to seek to the shape offset when we have the `shx` file
                 // as some shapes may not be stored sequentially and may contain 'garbage'
                 // bytes between them
-                let start_pos = shapes_indices.next()?.offset * 2;
-                if start_pos != self.current_pos as i32 {
-                    if let Err(err) = self.source.seek(SeekFrom::Start(start_pos as u64)) {
+                let start_pos = match words_to_bytes(shapes_indices.next()?.offset) {
+                    Ok(pos) => pos,
+                    Err(e) => return Some(Err(e)),
+                };
+                if usize::try_from(start_pos).ok() != Some(self.current_pos) {
+                    if let Err(err) = self.source.seek(SeekFrom::Start(start_pos)) {
                         return Some(Err(err.into()));
                     }
                     self.current_pos = start_pos as usize;
                 }
             }
+            let start_pos = std::mem::replace(&mut self.current_pos, UNKNOWN_POS);
             let (hdr, shape) = match read_one_shape_as::<T, S>(self.source) {
                 Err(e) => return Some(Err(e)),
                 Ok(hdr_and_shape) => hdr_and_shape,
             };
-            self.current_pos += record::RecordHeader::SIZE;
-            self.current_pos += hdr.record_size as usize * 2;
+            self.current_pos = start_pos
+                .saturating_add(record::RecordHeader::SIZE)
+                .saturating_add(hdr.record_size as usize * 2);
             Some(Ok(shape))
         }
     }
@@ -355,7 +378,7 @@ impl<T: Read + Seek> ShapeReader<T> {
             _shape: std::marker::PhantomData,
             source: &mut self.source,
             current_pos: header::HEADER_SIZE as usize,
-            file_length: (self.header.file_length as usize) * 2,
+            file_length: words_to_bytes(self.header.file_length).unwrap_or(0) as usize,
             shapes_indices: self.shapes_index.as_ref().map(|s| s.iter()),
         }
     }
@@ -455,7 +478,8 @@ impl<T: Read + Seek> ShapeReader<T> {
         if let Some(ref shapes_index) = self.shapes_index {
             let offset = shapes_index
                 .get(index)
-                .map(|shape_idx| (shape_idx.offset * 2) as u64);
+                .map(|shape_idx| words_to_bytes(shape_idx.offset))
+                .transpose()?;
 
             match offset {
                 Some(n) => self.source.seek(SeekFrom::Start(n)),
